@@ -1,8 +1,10 @@
 import Driver.C17
+import Driver.Store
 
 def main (args : List String) : IO UInt32 := do
   match args with
   | ["c17"] => Driver.C17.main; return 0
+  | ["store", mode] => Driver.Store.main mode; return 0
   | _ =>
     IO.eprintln "usage: bwdriver <protocol>"
     return 2
